@@ -1,6 +1,7 @@
 SPECIFICATION Spec
 CONSTANTS
   Known <- QKnown
+  KnownFull <- QFull
   Unknown <- QUnknown
   Calls <- QCalls
   Depth = 3
